@@ -63,8 +63,15 @@ class RealInterp:
         from mesonbuild.interpreterbase.exceptions import ContinueRequest, BreakRequest
         self.reset()
         try:
-            ast = mparser.Parser(text, 'meson.build').parse()
-            self.interp.evaluate_codeblock(ast)
+            with _watchdog(PROGRAM_BUDGET_S):
+                ast = mparser.Parser(text, 'meson.build').parse()
+                self.interp.evaluate_codeblock(ast)
+        except ProgramTimeout:
+            self.dirty = True
+            return ('internal', 'no result after %g s (the reference evaluates every generated program in microseconds)' % PROGRAM_BUDGET_S)
+        except MemoryError:
+            self.dirty = True
+            return ('internal', 'MemoryError while evaluating the program')
         except mesonlib.MesonBugException as e:
             self.dirty = True
             return ('internal', 'MesonBugException: %s' % e)
@@ -85,6 +92,39 @@ class RealInterp:
                 continue
             out[k] = unhold(v)
         return ('ok', out)
+
+
+PROGRAM_BUDGET_S = 10.0
+
+
+class ProgramTimeout(BaseException):
+    """Raised by the watchdog; BaseException so that no `except Exception` of the code under test swallows it."""
+
+
+class _watchdog:
+    """Wall-clock budget for one generated program (main thread of a worker process only).  The generated programs are
+    tiny; the budget exists so that a defect that makes evaluation loop or grow without bound is *reported*."""
+
+    def __init__(self, seconds: float):
+        self.seconds = seconds
+        self.active = False
+
+    def __enter__(self):
+        import signal, threading
+        if threading.current_thread() is threading.main_thread():
+            def fire(signum, frame):
+                raise ProgramTimeout()
+            self.old = signal.signal(signal.SIGALRM, fire)
+            signal.setitimer(signal.ITIMER_REAL, self.seconds)
+            self.active = True
+        return self
+
+    def __exit__(self, *exc):
+        import signal
+        if self.active:
+            signal.setitimer(signal.ITIMER_REAL, 0)
+            signal.signal(signal.SIGALRM, self.old)
+        return False
 
 
 class Opaque(T.NamedTuple):
